@@ -7,6 +7,7 @@ import NeatviVerif.Drive.Ex
 import NeatviVerif.Drive.ExJudge
 import NeatviVerif.Drive.Vi
 import NeatviVerif.Drive.ViSpec
+import NeatviVerif.Drive.ViSpec08
 /-!
 Line-protocol driver.  Reads case lines (input + the implementation's observables, as printed by
 the C harnesses) on stdin; for every line recomputes the model's observables and evaluates the
@@ -39,6 +40,9 @@ def judge (stream : String) (kv : KV) : Option Verdict :=
   | "ex20" => some (ExJ.judge 20 kv)
   | "vi" => some (ViSpec.judge 0 kv)
   | "vi07" => some (ViSpec.judge 7 kv)
+  | "vi13" => some (ViSpec.judge 13 kv)
+  | "vi09" => some (ViSpec.judge09 kv)
+  | "vi08" => some (ViSpec08.judge kv)
   | "lops04" => some (LbufD.judgeLops 4 kv)
   | "lops02" => some (LbufD.judgeLops 2 kv)
   | "rdwr01" => some (LbufD.judgeRdwr 1 kv)
